@@ -14,5 +14,5 @@ CONSTANTS
   InitRate = 6000
   F6Quirk = FALSE
   F7Quirk = FALSE
-INVARIANTS ErrAgree ConformCounters ConformNet ConformChains ReloadOpens ConformShadowChains ReleaseRule ReleaseRuleReest NeverBroadcastRevoked
+INVARIANTS ErrAgree ConformCounters ConformNet ConformChains ReloadOpens ConformShadowChains ReleaseRule ReleaseRuleReest NeverBroadcastRevoked NextPointRule ReestPointRule StaleSecretsRule
 CHECK_DEADLOCK TRUE
